@@ -86,7 +86,8 @@ def quote_module(seed):
     and `;` inside (what a trailing-comment / sequence-field scanner has to step over)"""
     rng = random.Random(seed * 31 + 7)
     S = fgen.Stmt
-    st = [S(f"module qm{seed % 1000}", [f"qdm{seed % 1000} module doc"], kind="open"), S("implicit none")]
+    long_doc = " ".join(f"qlong{seed % 1000}w{k}" for k in range(rng.randint(8, 14)))  # runs beyond column 72
+    st = [S(f"module qm{seed % 1000}", [f"qdm{seed % 1000} module doc", long_doc], kind="open"), S("implicit none")]
     for i in range(rng.randint(2, 5)):
         lits = rng.sample(QLITS, rng.randint(1, 3))
         st.append(S(f"character(len=40) :: qv{i} = " + " // ".join(lits), [f"qd{i}a doc of qv{i}"] if rng.random() < 0.7 else []))
